@@ -183,7 +183,7 @@ def main(chk):
                 'X,Y → header WCS → RA,DEC, DETX,DETY → dithered pointing and DU rotation → RA,DEC, WCS reference = ROI centre, PSF-like isotropic displacement. '
                 'non-trivial = |dec| > 60° or dithering or roll ≠ 0')
     chk.assumptions = TRUSTED
-    chk.lean(['IxpeVerif.Props.C14'], GEN)
+    chk.lean(['IxpeVerif.Props.C14', 'IxpeVerif.Props.Audit.C14'], GEN)
     corr_gen.run(chk, GEN, n=100 if chk.tier == 'quick' else 2000, tag='C14', rtol=1e-10, atol=1e-10)
     explore(chk)
     return chk.finish(level='proof', trusted=TRUSTED, search=lambda k: explore(chk, 4))
